@@ -39,6 +39,18 @@ func vChoice(name string, n int) int {
 }
 func vBool(name string) bool { return vAssign[name]&1 == 1 }
 func vConcrete(x int) int    { return x }
+func vIte(c bool, a, b int) int {
+	if c {
+		return a
+	}
+	return b
+}
+func vB2I(c bool) int {
+	if c {
+		return 1
+	}
+	return 0
+}
 func vAssume(c bool) {
 	if !c {
 		panic(vStop{"assume", ""})
